@@ -399,6 +399,19 @@ func (r *funcResultsResolver) assignedResultsUntil(vs visits, target types.Objec
 			// skip func lit
 			return false
 		case *ast.AssignStmt:
+			if x.Tok != token.ASSIGN && x.Tok != token.DEFINE {
+				// x op= y: the new value has the type of x; y is only an operand (a shift count, an addend)
+				for i := range x.Lhs {
+					if lhs, ok := x.Lhs[i].(*ast.Ident); ok && target != nil && r.Package.TypesInfo.ObjectOf(lhs) == target {
+						targetType := target.Type()
+						sourceResults = func(yield func(Result) bool) {
+							yield(Result{Type: targetType})
+						}
+					}
+				}
+				return false
+			}
+
 			for i := range x.Lhs {
 				switch lhs := x.Lhs[i].(type) {
 				// assign to variable
